@@ -1012,6 +1012,7 @@ func (t *Tokenizer) readBacktickIdentifier() (models.Token, error) {
 			return models.Token{
 				Type:  models.TokenTypeIdentifier, // Backtick identifiers are identifiers
 				Value: buf.String(),
+				Quote: '`', // quoted: never a keyword, whatever it spells
 			}, nil
 		}
 
